@@ -90,6 +90,10 @@ def run_unit(unit, acc):
             for style in STYLES:
                 for variant in (0, 1):
                     check_case(dict(nsamp=unit["nsamp"], pres=pat, cats=ci, style=style, variant=variant, seed=_SEED[0]), acc)
+            # the rows of two scenes alternate in the sample table (logs merged and sorted by time): frames still follow the table
+            if unit["nsamp"] >= 3:
+                for sc in ([0, 1, 0, 1], [0, 1, 1, 0], [1, 0, 1, 1]):
+                    check_case(dict(nsamp=unit["nsamp"], pres=pat, cats=ci, style="t4", variant=ci % 2, seed=_SEED[0], scenes=sc[:unit["nsamp"]]), acc)
             # tilted ego (roll / pitch / height), one sensor variant
             check_case(dict(nsamp=unit["nsamp"], pres=pat, cats=ci, style="t4", variant=ci % 2, seed=_SEED[0], tilt=True), acc)
 
@@ -119,11 +123,14 @@ def check_case(case, acc):
         _DIR[0] = scratch.new_dir("c16")
     root = os.path.join(_DIR[0], "ds")
     shutil.rmtree(root, ignore_errors=True)
-    t4.write(root, samples, list(cats), vis_levels=levels, lidar_channel=channel, extra_camera=camera)
+    t4.write(root, samples, list(cats), vis_levels=levels, lidar_channel=channel, extra_camera=camera, scene_of=case.get("scenes"))
     if acc.cases % 211 == 1:
         acc.sample(case)
 
     for task, fid, merge in LOADS:
+        if case.get("scenes") and task == "tracking":
+            continue   # what a track's past is across scene boundaries is not specified
+
         def bad(sig, msg):
             acc.violation(sig, msg + " | load=%s/%s merge=%s nsamp=%d pres=%s cats=%s style=%s channel=%s" % (task, fid, merge, nsamp, pres, cats, case["style"], channel), case)
 
